@@ -2,6 +2,7 @@ import logging
 
 import pyhf
 from pyhf import events
+from pyhf.exceptions import InvalidModifier
 from pyhf.tensor.manager import get_backend
 from pyhf.parameters import ParamViewer
 
@@ -46,10 +47,12 @@ class shapefactor_builder:
         moddata = self.collect(thismod, nom)
         self.builder_data[key][sample]['data']['mask'] += moddata['mask']
         if thismod:
-            self.required_parsets.setdefault(
-                thismod['name'],
-                [required_parset(defined_samp['data'], thismod['data'])],
-            )
+            parset = required_parset(defined_samp['data'], thismod['data'])
+            existing = self.required_parsets.setdefault(thismod['name'], [parset])
+            if existing[0]['n_parameters'] != parset['n_parameters']:
+                raise InvalidModifier(
+                    f"The shapefactor modifier '{thismod['name']}' is shared between channels with different numbers of bins ({existing[0]['n_parameters']} and {parset['n_parameters']})."
+                )
 
     def finalize(self):
         return self.builder_data
